@@ -12,9 +12,12 @@ package main
 // on timing - here it is the one whose wait closes the cycle (stated gap: modelled, not observed).
 
 import (
+	"bytes"
 	"context"
+	"encoding/json"
 	"fmt"
 	"math/big"
+	"os"
 	"regexp"
 	"runtime"
 	"sort"
@@ -78,6 +81,69 @@ func runSchedOp(ctx context.Context, ctrl ledgercontroller.Controller, o COp) (r
 	return res
 }
 
+// importStream: n logs exported from a source ledger ("src": world -> acc<k>, idempotency keys i1..in, which mark the imported
+// rows in the copy), log and transaction ids shifted by shift
+func importStream(ctx context.Context, st *Stack, hash bool, n int, shift int64) []ledger.Log {
+	if _, err := st.Sys.GetLedgerController(ctx, "src"); err != nil {
+		must(st.Sys.CreateLedger(ctx, "src", ledger.Configuration{Bucket: "_default", Features: schedFeatures(hash)}))
+	}
+	src, err := st.Sys.GetLedgerController(ctx, "src")
+	must(err)
+	for k := 1; k <= n; k++ {
+		st.PG.Clock += 1000000
+		r := runOp(ctx, src, Op{Kind: "create", Post: []Posting{{"world", fmt.Sprintf("acc%d", k), "USD", big.NewInt(10)}}, IK: fmt.Sprintf("i%d", k)})
+		if r.Class != "none" {
+			panic("import stream: source write failed: " + r.Class)
+		}
+	}
+	var buf bytes.Buffer
+	enc := json.NewEncoder(&buf)
+	must(src.Export(ctx, ledgercontroller.ExportWriterFn(func(ctx context.Context, log ledger.Log) error { return enc.Encode(log) })))
+	return shiftLogs(buf.Bytes(), shift, shift)
+}
+
+// importDirect: Controller.Import fed from a pre-filled stream, in the calling goroutine (the scheduler identifies a request by its goroutine)
+func importDirect(ctx context.Context, ctrl ledgercontroller.Controller, logs []ledger.Log) (err error) {
+	defer func() {
+		if r := recover(); r != nil {
+			err = fmt.Errorf("panic: %v", r)
+		}
+	}()
+	stream := make(chan ledger.Log, len(logs))
+	for _, l := range logs {
+		stream <- l
+	}
+	close(stream)
+	return ctrl.Import(ctx, stream)
+}
+
+// runAtomicBulk: what Bulker.Run does for an atomic bulk - BeginTX on the facade, the elements on the controller it returns,
+// Commit (Rollback at the first failing element) - in the calling goroutine (the Bulker runs the elements on a worker pool)
+func runAtomicBulk(ctx context.Context, ctrl ledgercontroller.Controller, o COp) (out string) {
+	defer func() {
+		if r := recover(); r != nil {
+			out = L("bulk_panic", Q(fmt.Sprint(r)))
+		}
+	}()
+	tx, _, err := ctrl.BeginTX(ctx, nil)
+	if err != nil {
+		return L("bulk_err", "begin", Q(classify(err)))
+	}
+	var rs []string
+	for k := 1; k <= int(o.Amt); k++ {
+		r := runOp(ctx, tx, Op{Kind: "create", Post: []Posting{{o.Src, o.Dst, o.Asset, big.NewInt(10)}}, IK: fmt.Sprintf("%s.%d", o.IK, k)})
+		rs = append(rs, r.sx())
+		if r.Class != "none" || r.Panic != "" {
+			_ = tx.Rollback(ctx)
+			return L(append([]string{"bulk_rolled_back"}, rs...)...)
+		}
+	}
+	if err := tx.Commit(ctx); err != nil {
+		return L("bulk_err", "commit", Q(classify(err)))
+	}
+	return L(append([]string{"bulk"}, rs...)...)
+}
+
 // ---------------------------------------------------------------- scenarios
 type Scenario struct {
 	Name    string
@@ -103,6 +169,7 @@ var scenarioNames = []string{
 	"c13-same2", "c13-same3", "c13-diff2", "c13-spend2", "c13-revert2",
 	"c14-ref2", "c14-ref3", "c14-refworld",
 	"c15-rev2", "c15-rev3", "c15-revforce",
+	"c12-import-vs-write", "c12-import-vs-bulk", "c12-import-vs-two", "c12-import-shifted", "c12-import-vs-failing",
 }
 
 // buildScenario: fresh = never-used (account, asset) pair for the contended source (the account itself exists: it holds EUR)
@@ -201,6 +268,30 @@ func buildScenario(name string, fresh, hash bool) *Scenario {
 			s.Writers[i].Ref = "r"
 			s.Writers[i].Inh = i
 		}
+	case "c12-import-vs-write", "c12-import-vs-bulk", "c12-import-vs-two", "c12-import-shifted", "c12-import-vs-failing":
+		// the ledger is still initializing: no prefix.  Every request goes through its own facade, resolved before the race (what
+		// a per-request GetLedgerController gives: all caches say "initializing", possibly stale by the time they are used).
+		s.Prefix = nil
+		imp := func(n, shift int64) COp { return COp{Kind: "import", Mode: "plain", Amt: n, Allow: shift} }
+		w := fund("alice", "USD", 10)
+		b := COp{Kind: "bulk", Mode: "plain", Src: "world", Dst: "bob", Asset: "USD", Amt: 2}
+		switch name {
+		case "c12-import-vs-write":
+			s.Writers = []COp{imp(2, 0), w}
+		case "c12-import-vs-bulk":
+			s.Writers = []COp{imp(2, 0), b}
+		case "c12-import-vs-two":
+			s.Writers = []COp{imp(3, 0), w, b}
+		case "c12-import-shifted": // the stream's ids lie above anything a racing first write can draw
+			s.Writers = []COp{imp(2, 3), w}
+		case "c12-import-vs-failing": // the racing write fails (no funds): it must leave the ledger pristine
+			s.Writers = []COp{imp(2, 0), spend("plain", "dave", "bob", 10, 0)}
+		}
+		for i := range s.Writers {
+			s.Writers[i].IK = fmt.Sprintf("w%d", i)
+			s.Writers[i].Inh = i
+		}
+		return s
 	case "c15-rev2", "c15-rev3", "c15-revforce":
 		s.Prefix = append(s.Prefix, fund("alice", "USD", 100), fund("bob", "USD", 100), spend("plain", "alice", "bob", 100, 0))
 		s.Target = int64(len(s.Prefix))
@@ -262,6 +353,9 @@ type schedWorker struct {
 	res       OpResult
 	committed bool // a COMMIT happened during the last slice
 	late      bool // not started before every non-late worker is done
+	advSess   *pgsem.Session // blocked on an advisory key whose holder has no open transaction
+	ctrl      ledgercontroller.Controller
+	resSx     string // result of an import / bulk request
 }
 
 type schedEvent struct {
@@ -288,6 +382,7 @@ type coopSched struct {
 	unknown []string // statements outside the classification (still scheduled, label "other")
 	stuck   bool
 	cut     bool
+	coarse  bool
 }
 
 var reGid = regexp.MustCompile(`^goroutine (\d+) `)
@@ -328,6 +423,20 @@ func stmtLabel(sql string) string {
 		return ""
 	case strings.HasPrefix(q, "with data_batch") && has(".accounts"):
 		return ""
+	case strings.HasPrefix(q, "select pg_advisory_xact_lock(hashtext("):
+		return "xlock" // ledger lock, transaction scoped: first write / atomic bulk on an initializing ledger (state tracker)
+	case strings.HasPrefix(q, "select pg_advisory_lock(hashtext("):
+		return "ilock" // ledger lock, session scoped: Import
+	case strings.HasPrefix(q, "select pg_advisory_unlock(hashtext("):
+		return "iunlock"
+	case strings.HasPrefix(q, "select") && has(`"_system"."ledgers"`):
+		return "irow" // Import re-reads the ledger row under the lock
+	case strings.HasPrefix(q, "update") && has(`"_system"."ledgers"`) && has("set state ="):
+		return "mark" // markInUse: UPDATE ... WHERE id = ? and state = 'initializing'
+	case strings.HasPrefix(q, "select setval("):
+		return "setval"
+	case strings.HasPrefix(q, "with") && has(".logs") && has("limit 2") && !has("idempotency_key ="):
+		return "ilast" // DefaultController.Import: the last stored log (page of size 1)
 	case strings.HasPrefix(q, "select pg_advisory_xact_lock("):
 		return "adv"
 	case strings.HasPrefix(q, "insert into") && has(".logs ("):
@@ -346,6 +455,12 @@ func (cs *coopSched) Yield(sess *pgsem.Session, sql string) {
 		return
 	}
 	label := stmtLabel(sql)
+	if cs.coarse { // protocol-level schedules (C12): the statements of a write / of one imported log run inside the ledger lock
+		switch label {
+		case "ik", "bal", "bal2", "vol", "tx", "adv", "log", "rev":
+			label = ""
+		}
+	}
 	if label == "" {
 		w.label = "silent"
 		return
@@ -372,6 +487,15 @@ func (cs *coopSched) Block(sess *pgsem.Session, on uint64) {
 	w := cs.me()
 	if w == nil {
 		panic("sched: a session outside the schedule has to wait for a lock")
+	}
+	if adv, holder, sessionLevel := sess.AdvisoryWait(); adv && holder != nil && sessionLevel {
+		// the ledger lock is held at session level (Import): the wait ends when the key is released, whatever transactions the
+		// holder runs meanwhile; no cycle goes through it here (nobody holds anything else while waiting for the ledger lock)
+		w.state, w.blockedOn, w.advSess = wBlocked, 0, sess
+		cs.back <- w
+		<-w.resume
+		w.advSess = nil
+		return
 	}
 	// does this wait close a cycle of the wait-for graph?
 	cur := on
@@ -419,6 +543,11 @@ func (cs *coopSched) runnable() (out, woken []int) {
 		case wParked:
 			out = append(out, w.idx)
 		case wBlocked:
+			if w.advSess != nil {
+				if _, holder, _ := w.advSess.AdvisoryWait(); holder != nil {
+					continue // the key is still held
+				}
+			}
 			if w.blockedOn == 0 || cs.pg.TxDone(w.blockedOn) {
 				out = append(out, w.idx)
 				woken = append(woken, w.idx)
@@ -474,6 +603,8 @@ type SchedRun struct {
 	Unknown  []string
 	Stuck    bool
 	Cut      bool
+	ResSx    []string // results of import / bulk requests ("" for plain writes)
+	State    string   // C12: state of the ledger row at the end
 	Viol     []schedViolation
 	Waits    int
 	Deadlock int
@@ -552,10 +683,20 @@ func runSchedule(scn *Scenario, pol schedPolicy) *SchedRun {
 	now += 1000000
 	st.PG.Clock = pgsem.TS(now) // every writer runs at the same logical instant
 	run := &SchedRun{Scn: scn}
-	cs := &coopSched{pg: st.PG, byGid: map[uint64]*schedWorker{}, back: make(chan *schedWorker)}
+	cs := &coopSched{pg: st.PG, byGid: map[uint64]*schedWorker{}, back: make(chan *schedWorker), coarse: scn.Prop == "C12"}
+	streams := map[int][]ledger.Log{}
 	for i, o := range scn.Writers {
-		cs.workers = append(cs.workers, &schedWorker{idx: i, op: o, resume: make(chan struct{}), late: i >= len(scn.Writers)-scn.Late})
+		w := &schedWorker{idx: i, op: o, resume: make(chan struct{}), late: i >= len(scn.Writers)-scn.Late, ctrl: ctrl}
+		if scn.Prop == "C12" {
+			w.ctrl, err = st.Sys.GetLedgerController(ctx, "l1") // own facade, resolved now
+			must(err)
+			if o.Kind == "import" {
+				streams[i] = importStream(ctx, st, scn.Hash, int(o.Amt), o.Allow)
+			}
+		}
+		cs.workers = append(cs.workers, w)
 	}
+	st.PG.Clock = pgsem.TS(now + 100*1000000)
 	st.PG.Sched = cs
 	st.PG.TxHook = cs.txHook
 	reg := make(chan struct{})
@@ -565,7 +706,18 @@ func runSchedule(scn *Scenario, pol schedPolicy) *SchedRun {
 			cs.byGid[goid()] = w
 			reg <- struct{}{}
 			<-w.resume
-			w.res = runSchedOp(ctx, ctrl, w.op)
+			switch w.op.Kind {
+			case "import":
+				ierr := importDirect(ctx, w.ctrl, streams[w.idx])
+				if os.Getenv("VH_DEBUG") != "" && ierr != nil {
+					fmt.Fprintln(os.Stderr, "import error:", ierr)
+				}
+				w.resSx = L("imp", importClass(ierr))
+			case "bulk":
+				w.resSx = runAtomicBulk(ctx, w.ctrl, w.op)
+			default:
+				w.res = runSchedOp(ctx, w.ctrl, w.op)
+			}
 			w.state = wDone
 			cs.back <- w
 		}()
@@ -649,6 +801,12 @@ func runSchedule(scn *Scenario, pol schedPolicy) *SchedRun {
 	}
 	for _, w := range cs.workers {
 		run.Res = append(run.Res, w.res)
+		run.ResSx = append(run.ResSx, w.resSx)
+	}
+	if !cs.stuck && !cs.cut && scn.Prop == "C12" {
+		for _, r := range rawRows(st.PG, `select state from "_system".ledgers where name = 'l1'`) {
+			run.State = r[0]
+		}
 	}
 	if !cs.stuck && !cs.cut {
 		run.Bal = readBalances(st.PG)
@@ -706,6 +864,14 @@ func (r *SchedRun) outcomeSx() string {
 		evs = append(evs, L(strconv.Itoa(e.w), e.label, e.status))
 	}
 	h := func(head string, xs []string) string { return L(append([]string{head}, xs...)...) }
+	if r.Scn.Prop == "C12" {
+		for i, x := range r.ResSx {
+			if x != "" {
+				res[i] = x
+			}
+		}
+		return L("c12", h("res", res), h("commits", com), h("logs", logs), L("state", r.State), h("ev", evs))
+	}
 	return L("outcome", h("res", res), h("commits", com), h("bal", bal), h("txs", txs), h("logs", logs), h("ev", evs))
 }
 
@@ -792,6 +958,67 @@ func (r *SchedRun) monitors() {
 					add("C16", fmt.Sprintf("[c16-nonoverlapping-order] writer %d ran entirely after the COMMIT of writer %d (log id %d) and received the smaller log id %d", j, i, xi.LogID, xj.LogID))
 				}
 			}
+		}
+	}
+	// ---- C12: an import racing first writes on an initializing ledger
+	if scn.Prop == "C12" {
+		imp := -1
+		for i, o := range scn.Writers {
+			if o.Kind == "import" {
+				imp = i
+			}
+		}
+		accepted := imp >= 0 && r.ResSx[imp] == L("imp", "ok")
+		nImported, maxImported := 0, int64(0)
+		for _, l := range r.Logs {
+			if strings.HasPrefix(l[1], "i") {
+				nImported++
+				if id := atoi(l[0]); id > maxImported {
+					maxImported = id
+				}
+			}
+		}
+		writerCommitted := false
+		for _, c := range r.Commits {
+			if c != imp {
+				writerCommitted = true
+			}
+		}
+		if accepted {
+			if nImported != int(scn.Writers[imp].Amt) {
+				add("C12", fmt.Sprintf("[c12-conc-accepted-incomplete] the import answered ok but %d of its %d logs are stored", nImported, scn.Writers[imp].Amt))
+			}
+			seenImp, lastImp := false, -1
+			for k, c := range r.Commits {
+				if c == imp {
+					seenImp, lastImp = true, k
+				}
+			}
+			for k, c := range r.Commits {
+				if c != imp && seenImp && k < lastImp {
+					add("C12", fmt.Sprintf("[c12-conc-write-inside-import] the write of request %d committed before the accepted import had finished (commit order %v): the import was accepted on a ledger that is not pristine, or was not exclusive", c, r.Commits))
+					break
+				}
+			}
+			for _, l := range r.Logs {
+				if !strings.HasPrefix(l[1], "i") && atoi(l[0]) < maxImported {
+					add("C12", fmt.Sprintf("[c12-conc-id-order] log %s of a write lies below imported log %d", l[0], maxImported))
+				}
+			}
+		} else if nImported > 0 {
+			add("C12", fmt.Sprintf("[c12-conc-rejected-effect] the import was answered %s but %d imported logs are stored", r.ResSx[imp], nImported))
+		}
+		if want := map[bool]string{true: "in-use", false: "initializing"}[writerCommitted]; r.State != want {
+			add("C12", fmt.Sprintf("[c12-conc-state] the ledger row says %s, expected %s (a write committed: %v)", r.State, want, writerCommitted))
+		}
+		for _, e := range r.Events {
+			if e.label == "silent" || e.label == "other" {
+				add("C12", fmt.Sprintf("[c12-conc-wait-inside-critical-section] request %d met a %s statement that %s: statements of a write / of an imported log are supposed to run under the ledger lock without ever waiting", e.w, e.label, e.status))
+				break
+			}
+		}
+		if len(r.Unknown) > 0 {
+			add("C12", "[c12-conc-unclassified-statement] "+r.Unknown[0])
 		}
 	}
 	// ---- C13: requests sharing an idempotency key
